@@ -220,7 +220,15 @@ def run(ctx: Ctx, tier: str) -> Result:
     for r in rets_:
         txts = ctx.expand.expand(r.value.elts[1], pv_) if isinstance(r.value, ast.Tuple) and len(r.value.elts) == 2 else []
         want_ = "deep.processor.variable_processor.safe_str(%s)" % P(pv_, 2)
-        if txts and all(x in (want_, "str(%s)" % P(pv_, 2)) or x.endswith("safe_str(%s)" % P(pv_, 2)) for x in txts):
+        import re as _re
+        # the text may be made encodable on its way (`.encode('utf-8', <lenient>).decode('utf-8')` is the identity on valid text)
+        txts = [_re.sub(r"\.encode\('utf-8', '(?:backslashreplace|replace|ignore|xmlcharrefreplace|namereplace)'\)\.decode\('utf-8'\)$", "", x) for x in txts]
+        direct_ = isinstance(r.value, ast.Tuple) and len(r.value.elts) == 2 and isinstance(r.value.elts[1], ast.Call) and \
+            any(f_.qname == "deep.processor.variable_processor.safe_str" for f_ in t.resolve_call(r.value.elts[1], pv_).repo) and \
+            r.value.elts[1].args and norm(r.value.elts[1].args[0]) == P(pv_, 2).lstrip("@")
+        if direct_:
+            res.ok("C16.PIPE", {"field text": "safe_str(%s)" % P(pv_, 2), "at": pv_.loc(r)})
+        elif txts and all(x == "f'{type(%s)}@{id(%s)}'" % (P(pv_, 2), P(pv_, 2)) or x in (want_, "str(%s)" % P(pv_, 2)) or x.endswith("safe_str(%s)" % P(pv_, 2)) for x in txts):
             res.ok("C16.PIPE", {"field text": txts[0], "at": pv_.loc(r)})
         else:
             res.fail(Finding("C16.PIPE", pv_.qname, r, pv_.loc(r), "the text of an evaluated field is %s on this path, not the string form of the value: what a "
